@@ -71,6 +71,36 @@ CTOR_CHECKS = {
 # lists hand classes as `mk_hand .. H_none` so that get_rdata_class resolution sees their modules)
 COQ_HAND = {"hip": "HHip", "ipseckey": "HIpseckey", "amtrelay": "HAmtrelay", "apl": "HApl", "svcb": "HSvcb", "loc": "HLoc", "opt": "HOpt"}
 
+# RFC 3597 section 4: only the RFC 1035 types with embedded names may compress them (NS, MD, MF,
+# CNAME, SOA, MB, MG, MR, PTR, MINFO, MX); dnspython additionally compresses SRV and NAPTR targets
+# (both are down-cased in the canonical form, so case-insensitive compression keeps records equal).
+MAY_COMPRESS = {"NS": 2, "MD": 3, "MF": 4, "CNAME": 5, "SOA": 6, "MB": 7, "MG": 8, "MR": 9, "PTR": 12, "MINFO": 14, "MX": 15,
+                "SRV": 33, "NAPTR": 35}
+# classes that may hand the compression table to Name.to_wire (bases of the types above)
+COMPRESS_CLASSES = {"MXBase", "NSBase", "SOA", "SRV", "NAPTR"}
+
+
+def compress_sites(world):
+    """every `<name>.to_wire(file, compress, ...)` in dns/rdtypes/** (schema AND hand-modelled classes,
+    helpers included): [(module, class, source line)] outside COMPRESS_CLASSES"""
+    out = []
+    for rel, mod in sorted(world.mods.items()):
+        for cname, cdef in mod.classes.items():
+            for fn in cdef.body:
+                if not (isinstance(fn, ast.FunctionDef) and fn.name in ("_to_wire", "to_wire")):
+                    continue
+                for node in ast.walk(fn):
+                    if (isinstance(node, ast.Call) and isinstance(node.func, ast.Attribute) and node.func.attr == "to_wire"
+                            and len(node.args) >= 2 and u(node.args[0]) == "file" and u(node.args[1]) == "compress"):
+                        recv = node.func.value
+                        # passing the table on to a helper object / the base class is not a name write
+                        if isinstance(recv, ast.Call):
+                            continue
+                        if cname not in COMPRESS_CLASSES:
+                            out.append([rel, cname, u(node)[:90]])
+    return out
+
+
 NARROW = []   # filled by finalize(): constructor bounds narrower than the wire format allows
 
 UMAX = {1: 255, 2: 65535, 4: 4294967295, 6: 281474976710655}
@@ -1112,7 +1142,19 @@ def translate(repo):
             errors.append(f"{rel}: {e}")
         types.append(ent)
     errors += sorted(set(NARROW))
-    return {"ok": not errors, "errors": errors, "types": types, "repo": repo,
+    stray = compress_sites(world)
+    for rel, cname, src in stray:
+        errors.append(f"{rel}: class {cname} hands the compression table to a name write ({src}); RFC 3597 section 4 allows that only for {sorted(MAY_COMPRESS)}")
+    name_compress = []
+    for t in types:
+        if t["kind"] == "schema":
+            def any_compress(fs):
+                return any((f["k"] == "Name" and f.get("compress")) or (f["k"] == "Repeat" and any_compress(f["row"])) for f in fs)
+            c = any_compress(t["writer"])
+            name_compress.append([t["rdclass"], t["rdtype"], c])
+            if c and t["name"] not in MAY_COMPRESS:
+                errors.append(f"{t['module']}: compresses an embedded name although the type is not one of {sorted(MAY_COMPRESS)} (RFC 3597 section 4)")
+    return {"ok": not errors, "errors": errors, "types": types, "repo": repo, "name_compress": name_compress, "stray_compress_sites": stray,
             "rdatatype_members": sorted(set(world.rdatatypes.values()))}
 
 
